@@ -9,6 +9,7 @@ import SqlizeModel.Impl.Hash
 import SqlizeModel.Spec.Props
 import SqlizeModel.Spec.Grammar
 import SqlizeModel.Spec.Scope
+import SqlizeModel.Spec.ProvedScope
 
 namespace Sqlize.Driver
 open Sqlize Sqlize.Codec Sqlize.Spec
@@ -120,9 +121,15 @@ def pairProps (g : Globals) (old new : List Stmt) (obs : List SExp) : Verdict :=
     let readerRegion : Option String := (Scope.c05 g dbOld old).orElse fun _ => Scope.c05 g dbNew new
     let readerRegion := if g.dialect == .mysql then none else readerRegion
     let withReader := fun (r : Option String) => r.orElse fun _ => readerRegion
-    (judge "C01" (ordering r01 (withReader (Scope.c01 g dbOld dbNew old new))) (r01 true)).and <|
-    (judge "C02" (ordering r02 (withReader (Scope.c02 g dbOld dbNew old new))) (r02 true)).and <|
-    (judge "C03" (withReader (Scope.c03 g dbOld dbNew old new)) r03).and <|
+    -- inside the executable scope of the whole-schema theorems (Proofs/ScopeB.lean) nothing is excused
+    let pU := Scope.Proved.up g old new dbOld dbNew
+    let pD := Scope.Proved.down g old new dbOld dbNew
+    let unlessProved := fun (p : Bool) (r : Option String) => if p then none else r
+    let provedNote := fun (pid : String) (p : Bool) => (if p then { items := [s!"proved[{pid}]"] } else okV : Verdict)
+    (provedNote "C01" pU).and <| (provedNote "C02" pD).and <| (provedNote "C03" (pU && pD)).and <|
+    (judge "C01" (unlessProved pU (ordering r01 (withReader (Scope.c01 g dbOld dbNew old new)))) (r01 true)).and <|
+    (judge "C02" (unlessProved pD (ordering r02 (withReader (Scope.c02 g dbOld dbNew old new)))) (r02 true)).and <|
+    (judge "C03" (unlessProved (pU && pD) (withReader (Scope.c03 g dbOld dbNew old new))) r03).and <|
     let r10 : Check := do
       let skip := isPanic (o "up") || isPanic (o "upCase") || isPanic (o "down") || isPanic (o "downCase")
       if skip then pure () else do
